@@ -175,7 +175,8 @@ def rule_visit8(prog, rep, tier, anchor="ast_utils.RewriteAtQuery", caller="conf
     target is rewritten with the same bytes and reported as modified for ever."""
     ci = prog.cls(anchor)
     cf = prog.fn(caller)
-    compares = [c for c in ast.walk(cf.node) if isinstance(c, ast.Call) and isinstance(c.func, ast.Name) and c.func.id == "cmp_ast"]
+    # the comparison may have moved into a private helper of the caller
+    compares = [c for f_ in prog.region(cf) for c in ast.walk(f_.node) if isinstance(c, ast.Call) and isinstance(c.func, ast.Name) and c.func.id == "cmp_ast"]
     if not compares:
         raise AnalysisError("VISIT-8: %s no longer compares the found node with the replacement (cmp_ast)" % caller)
     n = 0
